@@ -124,7 +124,7 @@ func parallel(n int, f func(i int)) {
 type deadline struct{ t time.Time }
 
 func newDeadline(d time.Duration) deadline { return deadline{time.Now().Add(d)} }
-func (d deadline) passed() bool          { return time.Now().After(d.t) }
+func (d deadline) passed() bool            { return time.Now().After(d.t) }
 
 // isQuick reports whether tier is the quick tier.
 func isQuick(tier string) bool { return "quick" == tier }
